@@ -559,12 +559,29 @@ class BuiltinMixin:
         if items is None:
             raise Unsupported("dict.fromkeys over non-meta iterable")
         val = args[1] if len(args) > 1 else NONE
-        ents = []
+        try:
+            ents = []
+            for k in items:
+                kc = self.key_const(k)
+                if not any(self.key_const(e[0]) == kc for e in ents):
+                    ents.append([k, z3.BoolVal(True), val])
+            yield st.alloc(Obj(None, "dict", None, ents))
+            return
+        except Unsupported:
+            pass
+        # symbolic keys: case split on equality with the keys kept so far, so the kept keys are pairwise distinct
+        alts = [(st, [])]
         for k in items:
-            kc = self.key_const(k)
-            if not any(self.key_const(e[0]) == kc for e in ents):
-                ents.append([k, z3.BoolVal(True), val])
-        yield st.alloc(Obj(None, "dict", None, ents))
+            nxt = []
+            for s0, kept in alts:
+                dup = z3.Or([self.truth(s0, self.eq(s0, k, q)) for q in kept]) if kept else z3.BoolVal(False)
+                if self.feasible(s0.pc, dup):
+                    nxt.append((s0.assume(dup), kept))
+                if self.feasible(s0.pc, z3.Not(dup)):
+                    nxt.append(((s0.assume(z3.Not(dup)) if kept else s0), kept + [k]))
+            alts = nxt
+        for s0, kept in alts:
+            yield s0.alloc(Obj(None, "dict", None, [[k, z3.BoolVal(True), val] for k in kept]))
 
     def bi_super(self, st, args, kwargs):
         cls = st.loc.get("$class")
